@@ -1315,6 +1315,754 @@ def _anchor_summary(fi: FuncInfo) -> tuple[str, list[tuple[str, int]]] | None:
 
 
 # ---------------------------------------------------------------------------
+# evaluation of a small pure helper on a table of constants
+#
+# Two clauses (R1.10: where the hold-back anchor cuts; R1.11: what the header stage does with a
+# left-over line-break byte) are statements about a *pure function of bytes*.  They are decided by
+# binding the function's parameter to every constant of a small table and propagating constants
+# through its statements with a closed set of pure builtins (the statement-level analogue of
+# wzsa/fold.py): nothing of werkzeug is imported or run, only its syntax tree is read; helpers of
+# the package are followed (bounded depth); a construct outside the subset ends in _Unmodelled
+# (-> ANALYSIS-ERROR), never in a verdict.  The spelling of the function is irrelevant to the
+# result: index arithmetic, slices, byte tests, rfind / rindex + except / rpartition, backward
+# scans, loops, comprehensions, generators, early returns all evaluate to the same table.
+
+import builtins as _builtins
+
+
+class _PyRaise(Exception):
+    """an exception of the evaluated program"""
+
+    def __init__(self, names: t.Sequence[str]):
+        self.names = list(names)
+
+
+class _Ret(Exception):
+    def __init__(self, value: t.Any):
+        self.value = value
+
+
+class _Brk(Exception):
+    pass
+
+
+class _Cont(Exception):
+    pass
+
+
+class SelfRef:
+    """the receiver of a method that is being evaluated (no instance state is modelled)"""
+
+    def __init__(self, cls: ClassInfo | None):
+        self.cls = cls
+
+
+class ClassRef:
+    def __init__(self, cls: ClassInfo):
+        self.cls = cls
+
+
+class Opaque:
+    """an object of a package class that is only built and filled: constructor arguments and the calls made on it, in order"""
+
+    def __init__(self, cls: str, args: tuple, kwargs: tuple):
+        self.cls, self.args, self.kwargs = cls, args, kwargs
+        self.log: list = []
+
+    def __eq__(self, other: object) -> bool:
+        return isinstance(other, Opaque) and (self.cls, self.args, self.kwargs, self.log) == (other.cls, other.args, other.kwargs, other.log)
+
+    __hash__ = None  # type: ignore[assignment]
+
+    def __repr__(self) -> str:
+        inner = ", ".join([repr(a) for a in self.args] + [f"{k}={v!r}" for k, v in self.kwargs])
+        return f"{self.cls}({inner})" + "".join(f".{m}({', '.join(map(repr, a))})" for m, a, _ in self.log)
+
+
+class RxVal:
+    """a pattern compiled at module level (folded from the source)"""
+
+    def __init__(self, rc: RegexConst):
+        self.rx = re.compile(rc.pattern, rc.flags)
+
+
+_PURE_METHODS: dict[type, set[str]] = {
+    bytes: {"rfind", "rindex", "find", "index", "endswith", "startswith", "count", "strip", "lstrip", "rstrip", "splitlines", "split", "rsplit", "partition",
+            "rpartition", "decode", "lower", "upper", "title", "replace", "join", "isspace", "removeprefix", "removesuffix", "isalpha", "isdigit"},
+    str: {"rfind", "rindex", "find", "index", "endswith", "startswith", "count", "strip", "lstrip", "rstrip", "splitlines", "split", "rsplit", "partition",
+          "rpartition", "encode", "lower", "upper", "title", "casefold", "replace", "join", "isspace", "removeprefix", "removesuffix", "isalpha", "isdigit"},
+    list: {"append", "extend", "insert", "pop", "index", "count", "copy", "reverse"},
+    tuple: {"index", "count"},
+    dict: {"get", "items", "keys", "values", "setdefault"},
+    re.Match: {"start", "end", "span", "group", "groups"},
+}
+_PURE_METHODS[bytearray] = _PURE_METHODS[bytes] | {"extend", "append"}
+_RX_METHODS = {"sub", "subn", "split", "search", "match", "fullmatch", "findall"}
+_PURE_BUILTINS: dict[str, t.Any] = {
+    "len": len, "min": min, "max": max, "range": range, "reversed": lambda x: list(reversed(x)), "enumerate": lambda *a: list(enumerate(*a)),
+    "zip": lambda *a: list(zip(*a)), "bytes": bytes, "bytearray": bytearray, "memoryview": bytes, "int": int, "bool": bool, "str": str, "list": list, "tuple": tuple,
+    "sorted": sorted, "any": any, "all": all, "abs": abs, "sum": sum,
+}
+_PROGRAM_ERRORS = (ValueError, IndexError, KeyError, ZeroDivisionError, StopIteration)
+_DATA = (int, bool, bytes, bytearray, str, type(None), list, tuple, dict, set, frozenset, range)
+
+
+class MiniEval:
+    def __init__(self, repo, folder: Folder | None = None, max_depth: int = 4, budget: int = 40000):
+        self.repo = repo
+        self.folder = folder or Folder(repo)
+        self.max_depth = max_depth
+        self.budget = budget
+        self.steps = 0
+
+    # -- entry ---------------------------------------------------------------------
+    def call(self, fi: FuncInfo, args: t.Sequence[t.Any], kwargs: dict[str, t.Any] | None = None, depth: int = 0) -> t.Any:
+        """value the function returns for these arguments (receiver not counted); _PyRaise when it raises"""
+        if depth > self.max_depth:
+            raise _Unmodelled("helpers nested too deep")
+        node = fi.node
+        if isinstance(node, ast.AsyncFunctionDef):
+            raise _Unmodelled("async function")
+        a = node.args  # type: ignore[attr-defined]
+        pos = [x.arg for x in a.posonlyargs + a.args]
+        decs = {d.rsplit(".", 1)[-1] for d in fi.decorators}
+        if decs - {"staticmethod", "classmethod"}:
+            raise _Unmodelled(f"decorated function {fi.qualname}")
+        env: dict[str, t.Any] = {}
+        if fi.cls is not None and "staticmethod" not in decs and pos:
+            env[pos[0]] = ClassRef(fi.cls) if "classmethod" in decs else SelfRef(fi.cls)
+            pos = pos[1:]
+        args = list(args)
+        kwargs = dict(kwargs or {})
+        if len(args) > len(pos):
+            if a.vararg is None:
+                raise _Unmodelled(f"too many arguments for {fi.qualname}")
+            env[a.vararg.arg] = tuple(args[len(pos):])
+            args = args[:len(pos)]
+        elif a.vararg is not None:
+            env[a.vararg.arg] = ()
+        for p, v in zip(pos, args):
+            env[p] = v
+        names = set(pos) | {x.arg for x in a.kwonlyargs}
+        for k, v in kwargs.items():
+            if k not in names or k in env:
+                raise _Unmodelled(f"keyword `{k}` for {fi.qualname}")
+            env[k] = v
+        defaults = dict(zip(reversed(pos), reversed(a.defaults)))
+        for x, d in zip(a.kwonlyargs, a.kw_defaults):
+            if d is not None:
+                defaults[x.arg] = d
+        for name in names:
+            if name not in env:
+                if name not in defaults:
+                    raise _Unmodelled(f"argument `{name}` of {fi.qualname} is missing")
+                env[name] = self.ev(defaults[name], {}, fi, depth)
+        if a.kwarg is not None:
+            raise _Unmodelled("**kwargs")
+        is_gen = any(isinstance(x, (ast.Yield, ast.YieldFrom)) for x in walk_no_nested(node))
+        if is_gen:
+            env["#yield"] = []
+        try:
+            self.block(node.body, env, fi, depth)  # type: ignore[attr-defined]
+        except _Ret as r:
+            return env["#yield"] if is_gen else r.value
+        except (_Brk, _Cont):
+            raise _Unmodelled("break / continue outside a loop")
+        return env["#yield"] if is_gen else None
+
+    def _tick(self) -> None:
+        self.steps += 1
+        if self.steps > self.budget:
+            raise _Unmodelled("evaluation does not finish within the step budget")
+
+    # -- statements ------------------------------------------------------------------
+    def block(self, body: t.Sequence[ast.stmt], env: dict[str, t.Any], fi: FuncInfo, depth: int) -> None:
+        for st in body:
+            self.stmt(st, env, fi, depth)
+
+    def _bind(self, tg: ast.AST, v: t.Any, env: dict[str, t.Any], fi: FuncInfo, depth: int) -> None:
+        if isinstance(tg, ast.Name):
+            env[tg.id] = v
+        elif isinstance(tg, (ast.Tuple, ast.List)) and not any(isinstance(x, ast.Starred) for x in tg.elts):
+            try:
+                vals = list(v)
+            except TypeError:
+                raise _Unmodelled(f"unpacking of `{norm(tg)}`")
+            if len(vals) != len(tg.elts):
+                raise _PyRaise(["ValueError", "Exception", "BaseException"])
+            for x, y in zip(tg.elts, vals):
+                self._bind(x, y, env, fi, depth)
+        elif isinstance(tg, ast.Subscript) and not isinstance(tg.slice, ast.Slice):
+            obj = self.ev(tg.value, env, fi, depth)
+            if not isinstance(obj, (list, dict)):
+                raise _Unmodelled(f"store into `{norm(tg)}`")
+            key = self.ev(tg.slice, env, fi, depth)
+            try:
+                obj[key] = v
+            except _PROGRAM_ERRORS as e:
+                raise _PyRaise([c.__name__ for c in type(e).__mro__])
+            except TypeError:
+                raise _Unmodelled(f"store into `{norm(tg)}`")
+        else:
+            raise _Unmodelled(f"assignment to `{norm(tg)}`")
+
+    def _matches(self, h: ast.ExceptHandler, r: _PyRaise, fi: FuncInfo) -> bool:
+        if h.type is None:
+            return True
+        names = [dotted(x) or "?" for x in (h.type.elts if isinstance(h.type, ast.Tuple) else [h.type])]
+        return any(n.rsplit(".", 1)[-1] in r.names for n in names)
+
+    def stmt(self, st: ast.stmt, env: dict[str, t.Any], fi: FuncInfo, depth: int) -> None:
+        self._tick()
+        if isinstance(st, ast.Expr):
+            v = st.value
+            if isinstance(v, ast.Constant):
+                return
+            if isinstance(v, ast.Yield):
+                env["#yield"].append(self.ev(v.value, env, fi, depth) if v.value is not None else None)
+                return
+            if isinstance(v, ast.YieldFrom):
+                env["#yield"].extend(self._iter(self.ev(v.value, env, fi, depth), v))
+                return
+            if isinstance(v, ast.Call) and isinstance(v.func, ast.Attribute) and isinstance(v.func.value, ast.Name) and isinstance(env.get(v.func.value.id), Opaque):
+                args, kwargs = self._args(v, env, fi, depth)  # `headers.add(name, value)`: recorded, in order
+                env[v.func.value.id].log.append((v.func.attr, tuple(args), tuple(sorted(kwargs.items()))))
+                return
+            self.ev(v, env, fi, depth)
+        elif isinstance(st, ast.Assign):
+            v = self.ev(st.value, env, fi, depth)
+            for tg in st.targets:
+                self._bind(tg, v, env, fi, depth)
+        elif isinstance(st, ast.AnnAssign):
+            if st.value is not None:
+                self._bind(st.target, self.ev(st.value, env, fi, depth), env, fi, depth)
+        elif isinstance(st, ast.AugAssign):
+            load = ast.copy_location(ast.parse(ast.unparse(st.target), mode="eval").body, st.target)
+            cur = self.ev(load, env, fi, depth)
+            rhs = self.ev(st.value, env, fi, depth)
+            if isinstance(cur, list) and isinstance(st.op, ast.Add):
+                cur.extend(self._iter(rhs, st))  # in place, as in Python
+                return
+            self._bind(st.target, self._binop(st.op, cur, rhs, st), env, fi, depth)
+        elif isinstance(st, ast.Return):
+            raise _Ret(self.ev(st.value, env, fi, depth) if st.value is not None else None)
+        elif isinstance(st, ast.If):
+            self.block(st.body if self.truth(self.ev(st.test, env, fi, depth)) else st.orelse, env, fi, depth)
+        elif isinstance(st, ast.While):
+            broke = False
+            while self.truth(self.ev(st.test, env, fi, depth)):
+                self._tick()
+                try:
+                    self.block(st.body, env, fi, depth)
+                except _Brk:
+                    broke = True
+                    break
+                except _Cont:
+                    continue
+            if not broke:
+                self.block(st.orelse, env, fi, depth)
+        elif isinstance(st, ast.For):
+            broke = False
+            for item in self._iter(self.ev(st.iter, env, fi, depth), st):
+                self._tick()
+                self._bind(st.target, item, env, fi, depth)
+                try:
+                    self.block(st.body, env, fi, depth)
+                except _Brk:
+                    broke = True
+                    break
+                except _Cont:
+                    continue
+            if not broke:
+                self.block(st.orelse, env, fi, depth)
+        elif isinstance(st, ast.Try):
+            try:
+                try:
+                    self.block(st.body, env, fi, depth)
+                except _PyRaise as r:
+                    h = next((h for h in st.handlers if self._matches(h, r, fi)), None)
+                    if h is None:
+                        raise
+                    if h.name:
+                        env[h.name] = Opaque(r.names[0], (), ())
+                    self.block(h.body, env, fi, depth)
+                else:
+                    self.block(st.orelse, env, fi, depth)
+            finally:
+                if st.finalbody:
+                    self.block(st.finalbody, env, fi, depth)
+        elif isinstance(st, ast.Raise):
+            exc = st.exc.func if isinstance(st.exc, ast.Call) else st.exc
+            name = (dotted(exc) or "Exception").rsplit(".", 1)[-1] if exc is not None else "Exception"
+            real = getattr(_builtins, name, None)
+            raise _PyRaise([c.__name__ for c in real.__mro__] if isinstance(real, type) and issubclass(real, BaseException) else [name, "Exception", "BaseException"])
+        elif isinstance(st, ast.Pass):
+            return
+        elif isinstance(st, ast.Break):
+            raise _Brk()
+        elif isinstance(st, ast.Continue):
+            raise _Cont()
+        elif isinstance(st, ast.Assert):
+            if not self.truth(self.ev(st.test, env, fi, depth)):
+                raise _PyRaise(["AssertionError", "Exception", "BaseException"])
+        else:
+            raise _Unmodelled(f"statement `{norm(st)[:60]}`")
+
+    # -- expressions --------------------------------------------------------------------
+    @staticmethod
+    def truth(v: t.Any) -> bool:
+        if isinstance(v, (SelfRef, ClassRef, Opaque, RxVal)):
+            raise _Unmodelled("truth value of an object")
+        return bool(v)
+
+    def _iter(self, v: t.Any, where: ast.AST) -> list:
+        if isinstance(v, (list, tuple, bytes, bytearray, str, range, dict, set, frozenset)):
+            return list(v)
+        raise _Unmodelled(f"iteration in `{norm(where)[:60]}`")
+
+    def _binop(self, op: ast.operator, a: t.Any, b: t.Any, where: ast.AST) -> t.Any:
+        if not (isinstance(a, _DATA) and isinstance(b, _DATA)):
+            raise _Unmodelled(f"`{norm(where)[:60]}`")
+        try:
+            if isinstance(op, ast.Add):
+                return a + b
+            if isinstance(op, ast.Sub):
+                return a - b
+            if isinstance(op, ast.Mult):
+                return a * b
+            if isinstance(op, ast.FloorDiv):
+                return a // b
+            if isinstance(op, ast.Mod):
+                return a % b
+            if isinstance(op, ast.BitOr):
+                return a | b
+            if isinstance(op, ast.BitAnd):
+                return a & b
+        except _PROGRAM_ERRORS as e:
+            raise _PyRaise([c.__name__ for c in type(e).__mro__])
+        except TypeError:
+            pass
+        raise _Unmodelled(f"`{norm(where)[:60]}`")
+
+    def _name(self, name: str, env: dict[str, t.Any], fi: FuncInfo) -> t.Any:
+        if name in env:
+            return env[name]
+        m = fi.module
+        if name in m.classes:
+            return ClassRef(m.classes[name])
+        if name in m.assigns or (name in m.imports and m.imports[name].startswith("werkzeug")):
+            fq = self.repo.resolve(m, name)
+            c = self.repo.try_cls(fq) if fq else None
+            if c is not None:
+                return ClassRef(c)
+            try:
+                v = self.folder.name(m, name)
+            except AnalysisError as e:
+                raise _Unmodelled(f"module constant `{name}` ({e})")
+            return RxVal(v) if isinstance(v, RegexConst) else v
+        raise _Unmodelled(f"name `{name}`")
+
+    def _cmp(self, op: ast.cmpop, a: t.Any, b: t.Any, where: ast.AST) -> bool:
+        try:
+            if isinstance(op, ast.Eq):
+                return a == b
+            if isinstance(op, ast.NotEq):
+                return a != b
+            if isinstance(op, ast.Is):
+                if a is None or b is None or isinstance(a, bool) or isinstance(b, bool):
+                    return a is b
+                raise _Unmodelled(f"identity test `{norm(where)[:60]}`")
+            if isinstance(op, ast.IsNot):
+                if a is None or b is None or isinstance(a, bool) or isinstance(b, bool):
+                    return a is not b
+                raise _Unmodelled(f"identity test `{norm(where)[:60]}`")
+            if not (isinstance(a, _DATA) and isinstance(b, _DATA)):
+                raise _Unmodelled(f"`{norm(where)[:60]}`")
+            if isinstance(op, ast.Lt):
+                return a < b
+            if isinstance(op, ast.LtE):
+                return a <= b
+            if isinstance(op, ast.Gt):
+                return a > b
+            if isinstance(op, ast.GtE):
+                return a >= b
+            if isinstance(op, ast.In):
+                return a in b
+            if isinstance(op, ast.NotIn):
+                return a not in b
+        except TypeError:
+            pass
+        raise _Unmodelled(f"`{norm(where)[:60]}`")
+
+    def _comp(self, e: ast.AST, gens: list, i: int, env: dict[str, t.Any], fi: FuncInfo, depth: int, emit: t.Callable[[dict], None]) -> None:
+        if i == len(gens):
+            emit(env)
+            return
+        g = gens[i]
+        if g.is_async:
+            raise _Unmodelled("async comprehension")
+        for item in self._iter(self.ev(g.iter, env, fi, depth), e):
+            self._tick()
+            self._bind(g.target, item, env, fi, depth)
+            if all(self.truth(self.ev(c, env, fi, depth)) for c in g.ifs):
+                self._comp(e, gens, i + 1, env, fi, depth, emit)
+
+    def ev(self, e: ast.AST | None, env: dict[str, t.Any], fi: FuncInfo, depth: int) -> t.Any:
+        self._tick()
+        if e is None:
+            return None
+        if isinstance(e, ast.Constant):
+            if isinstance(e.value, (int, bool, bytes, str, type(None))):
+                return e.value
+            raise _Unmodelled(f"constant `{norm(e)}`")
+        if isinstance(e, ast.Name):
+            return self._name(e.id, env, fi)
+        if isinstance(e, (ast.Tuple, ast.List, ast.Set)):
+            items: list = []
+            for x in e.elts:
+                if isinstance(x, ast.Starred):
+                    items.extend(self._iter(self.ev(x.value, env, fi, depth), e))
+                else:
+                    items.append(self.ev(x, env, fi, depth))
+            try:
+                return {ast.Tuple: tuple, ast.List: list, ast.Set: set}[type(e)](items)
+            except TypeError:
+                raise _Unmodelled(f"`{norm(e)[:60]}`")
+        if isinstance(e, ast.Dict):
+            if any(k is None for k in e.keys):
+                raise _Unmodelled("dict unpacking")
+            try:
+                return {self.ev(k, env, fi, depth): self.ev(v, env, fi, depth) for k, v in zip(e.keys, e.values)}
+            except TypeError:
+                raise _Unmodelled(f"`{norm(e)[:60]}`")
+        if isinstance(e, ast.BinOp):
+            return self._binop(e.op, self.ev(e.left, env, fi, depth), self.ev(e.right, env, fi, depth), e)
+        if isinstance(e, ast.UnaryOp):
+            v = self.ev(e.operand, env, fi, depth)
+            if isinstance(e.op, ast.Not):
+                return not self.truth(v)
+            if isinstance(e.op, ast.USub) and isinstance(v, int):
+                return -v
+            if isinstance(e.op, ast.UAdd) and isinstance(v, int):
+                return v
+            raise _Unmodelled(f"`{norm(e)[:60]}`")
+        if isinstance(e, ast.BoolOp):
+            v = None
+            for x in e.values:
+                v = self.ev(x, env, fi, depth)
+                if self.truth(v) != isinstance(e.op, ast.And):
+                    break
+            return v
+        if isinstance(e, ast.Compare):
+            left = self.ev(e.left, env, fi, depth)
+            for op, c in zip(e.ops, e.comparators):
+                right = self.ev(c, env, fi, depth)
+                if not self._cmp(op, left, right, e):
+                    return False
+                left = right
+            return True
+        if isinstance(e, ast.IfExp):
+            return self.ev(e.body if self.truth(self.ev(e.test, env, fi, depth)) else e.orelse, env, fi, depth)
+        if isinstance(e, ast.NamedExpr):
+            v = self.ev(e.value, env, fi, depth)
+            env[e.target.id] = v
+            return v
+        if isinstance(e, ast.Subscript):
+            v = self.ev(e.value, env, fi, depth)
+            if not isinstance(v, (bytes, bytearray, str, list, tuple, dict, range)):
+                raise _Unmodelled(f"`{norm(e)[:60]}`")
+            try:
+                if isinstance(e.slice, ast.Slice):
+                    if isinstance(v, dict):
+                        raise _Unmodelled(f"`{norm(e)[:60]}`")
+                    lo, hi, stp = (self.ev(x, env, fi, depth) if x is not None else None for x in (e.slice.lower, e.slice.upper, e.slice.step))
+                    return v[lo:hi:stp]
+                return v[self.ev(e.slice, env, fi, depth)]
+            except _PROGRAM_ERRORS as ex:
+                raise _PyRaise([c.__name__ for c in type(ex).__mro__])
+            except TypeError:
+                raise _Unmodelled(f"`{norm(e)[:60]}`")
+        if isinstance(e, (ast.ListComp, ast.GeneratorExp, ast.SetComp)):
+            out: list = []
+            inner = dict(env)
+            self._comp(e, e.generators, 0, inner, fi, depth, lambda env2: out.append(self.ev(e.elt, env2, fi, depth)))  # type: ignore[union-attr]
+            for k, v in inner.items():  # a walrus inside binds in the enclosing scope; the loop variables do not leak
+                if k in env:
+                    env[k] = v
+            if isinstance(e, ast.SetComp):
+                try:
+                    return set(out)
+                except TypeError:
+                    raise _Unmodelled(f"`{norm(e)[:60]}`")
+            return out
+        if isinstance(e, ast.DictComp):
+            outd: dict = {}
+            inner = dict(env)
+
+            def put(env2: dict) -> None:
+                outd[self.ev(e.key, env2, fi, depth)] = self.ev(e.value, env2, fi, depth)  # type: ignore[union-attr]
+
+            self._comp(e, e.generators, 0, inner, fi, depth, put)
+            return outd
+        if isinstance(e, ast.JoinedStr):
+            s = ""
+            for v in e.values:
+                if isinstance(v, ast.Constant):
+                    s += str(v.value)
+                elif isinstance(v, ast.FormattedValue) and v.format_spec is None and v.conversion in (-1, 115, 114):
+                    val = self.ev(v.value, env, fi, depth)
+                    if not isinstance(val, _DATA):
+                        raise _Unmodelled("formatted object")
+                    s += repr(val) if v.conversion == 114 else str(val)
+                else:
+                    raise _Unmodelled("format spec")
+            return s
+        if isinstance(e, ast.Attribute):
+            d = dotted(e)
+            if d and isinstance(e.value, ast.Name) and e.value.id not in env and e.value.id not in fi.module.classes:
+                fq = self.repo.resolve(fi.module, d)
+                if fq and fq.startswith("werkzeug."):
+                    mn, _, nm = fq.rpartition(".")
+                    if mn in self.repo.modules:
+                        return self._module_attr(mn, nm)
+                raise _Unmodelled(f"attribute `{norm(e)[:60]}`")
+            recv = self.ev(e.value, env, fi, depth)
+            if isinstance(recv, (SelfRef, ClassRef)) and recv.cls is not None:
+                owner, what = self.repo.lookup(recv.cls, e.attr)  # a constant defined in the class body
+                if isinstance(what, ast.AST) and isinstance(owner, ClassInfo):
+                    try:
+                        v = self.folder.expr(owner.module, what)
+                    except AnalysisError as ex:
+                        raise _Unmodelled(f"class constant `{norm(e)}` ({ex})")
+                    return RxVal(v) if isinstance(v, RegexConst) else v
+            raise _Unmodelled(f"attribute `{norm(e)[:60]}`")
+        if isinstance(e, ast.Call):
+            return self.ev_call(e, env, fi, depth)
+        raise _Unmodelled(f"`{norm(e)[:60]}`")
+
+    def _module_attr(self, mn: str, nm: str) -> t.Any:
+        try:
+            v = self.folder.name(self.repo.modules[mn], nm)
+        except AnalysisError as e:
+            raise _Unmodelled(f"module constant `{mn}.{nm}` ({e})")
+        return RxVal(v) if isinstance(v, RegexConst) else v
+
+    def _args(self, c: ast.Call, env: dict[str, t.Any], fi: FuncInfo, depth: int) -> tuple[list, dict]:
+        args: list = []
+        for a in c.args:
+            if isinstance(a, ast.Starred):
+                args.extend(self._iter(self.ev(a.value, env, fi, depth), c))
+            else:
+                args.append(self.ev(a, env, fi, depth))
+        kwargs = {}
+        for k in c.keywords:
+            if k.arg is None:
+                raise _Unmodelled("**kwargs in a call")
+            kwargs[k.arg] = self.ev(k.value, env, fi, depth)
+        return args, kwargs
+
+    def _apply(self, f: t.Callable, args: list, kwargs: dict, where: ast.AST) -> t.Any:
+        try:
+            return f(*args, **kwargs)
+        except _PROGRAM_ERRORS as e:
+            raise _PyRaise([c.__name__ for c in type(e).__mro__])
+        except (TypeError, AttributeError, re.error, OverflowError, MemoryError):
+            raise _Unmodelled(f"`{norm(where)[:60]}`")
+
+    def _construct(self, cls: ClassInfo, c: ast.Call, env: dict[str, t.Any], fi: FuncInfo, depth: int) -> Opaque:
+        args, kwargs = self._args(c, env, fi, depth)
+        return Opaque(cls.name, tuple(args), tuple(sorted(kwargs.items())))
+
+    def call_method(self, recv: t.Any, c: ast.Call, env: dict[str, t.Any], fi: FuncInfo, depth: int) -> t.Any:
+        attr = c.func.attr  # type: ignore[attr-defined]
+        if isinstance(recv, (SelfRef, ClassRef)):
+            if recv.cls is None:
+                raise _Unmodelled(f"`{norm(c)[:60]}`")
+            _, what = self.repo.lookup(recv.cls, attr)
+            if not isinstance(what, FuncInfo):
+                raise _Unmodelled(f"`{norm(c)[:60]}` is not a method of the package")
+            args, kwargs = self._args(c, env, fi, depth)
+            return self.call(what, args, kwargs, depth + 1)
+        args, kwargs = self._args(c, env, fi, depth)
+        if isinstance(recv, RxVal):
+            if attr not in _RX_METHODS or not all(isinstance(a, (bytes, bytearray, str, int)) for a in list(args) + list(kwargs.values())):
+                raise _Unmodelled(f"`{norm(c)[:60]}`")
+            return self._apply(getattr(recv.rx, attr), args, kwargs, c)
+        for ty, names in _PURE_METHODS.items():
+            if type(recv) is ty:
+                if attr not in names or not all(isinstance(a, _DATA) for a in list(args) + list(kwargs.values())):
+                    break
+                return self._apply(getattr(recv, attr), args, kwargs, c)
+        raise _Unmodelled(f"`{norm(c)[:60]}`")
+
+    def ev_call(self, c: ast.Call, env: dict[str, t.Any], fi: FuncInfo, depth: int) -> t.Any:
+        f = c.func
+        d = dotted(f)
+        if d and d.rsplit(".", 1)[-1] == "cast" and len(c.args) == 2 and not c.keywords and d.split(".")[0] not in env:
+            return self.ev(c.args[1], env, fi, depth)
+        if isinstance(f, ast.Name):
+            if f.id in env:
+                raise _Unmodelled(f"call of a local `{f.id}`")
+            m = fi.module
+            if f.id in m.functions:
+                args, kwargs = self._args(c, env, fi, depth)
+                return self.call(m.functions[f.id], args, kwargs, depth + 1)
+            if f.id in m.classes:
+                return self._construct(m.classes[f.id], c, env, fi, depth)
+            if f.id in m.imports:
+                fq = self.repo.resolve(m, f.id)
+                if fq and fq.startswith("werkzeug."):
+                    callee = self.repo.try_func(fq)
+                    if callee is not None:
+                        args, kwargs = self._args(c, env, fi, depth)
+                        return self.call(callee, args, kwargs, depth + 1)
+                    cls = self.repo.try_cls(fq)
+                    if cls is not None:
+                        return self._construct(cls, c, env, fi, depth)
+                raise _Unmodelled(f"`{norm(c)[:60]}`")
+            if f.id in m.assigns:
+                raise _Unmodelled(f"`{norm(c)[:60]}`")
+            if f.id == "isinstance" and len(c.args) == 2 and not c.keywords:
+                names = [dotted(x) for x in (c.args[1].elts if isinstance(c.args[1], ast.Tuple) else [c.args[1]])]
+                types = {"bytes": bytes, "bytearray": bytearray, "str": str, "int": int, "bool": bool, "list": list, "tuple": tuple, "dict": dict}
+                v = self.ev(c.args[0], env, fi, depth)
+                if all(n in types for n in names) and isinstance(v, _DATA):
+                    return isinstance(v, tuple(types[n] for n in names))  # type: ignore[index]
+                raise _Unmodelled(f"`{norm(c)[:60]}`")
+            if f.id == "filter" and len(c.args) == 2 and not c.keywords and isinstance(c.args[0], ast.Constant) and c.args[0].value is None:
+                return [x for x in self._iter(self.ev(c.args[1], env, fi, depth), c) if self.truth(x)]
+            fn = _PURE_BUILTINS.get(f.id)
+            if fn is None:
+                raise _Unmodelled(f"`{norm(c)[:60]}`")
+            args, kwargs = self._args(c, env, fi, depth)
+            if f.id in ("min", "max", "sorted") and kwargs:
+                raise _Unmodelled(f"`{norm(c)[:60]}`")
+            if not all(isinstance(a, _DATA) for a in list(args) + list(kwargs.values())):
+                raise _Unmodelled(f"`{norm(c)[:60]}`")
+            return self._apply(fn, args, kwargs, c)
+        if isinstance(f, ast.Attribute):
+            if d and isinstance(f.value, ast.Name) and f.value.id not in env and f.value.id not in fi.module.classes and f.value.id not in fi.module.assigns:
+                fq = self.repo.resolve(fi.module, d)  # `module.function(...)`
+                if fq and fq.startswith("werkzeug."):
+                    callee = self.repo.try_func(fq)
+                    if callee is not None:
+                        args, kwargs = self._args(c, env, fi, depth)
+                        return self.call(callee, args, kwargs, depth + 1)
+                    cls = self.repo.try_cls(fq)
+                    if cls is not None:
+                        return self._construct(cls, c, env, fi, depth)
+                raise _Unmodelled(f"`{norm(c)[:60]}`")
+            recv = self.ev(f.value, env, fi, depth)
+            if isinstance(recv, Opaque):
+                raise _Unmodelled(f"the result of `{norm(c)[:60]}` is used")
+            return self.call_method(recv, c, env, fi, depth)
+        raise _Unmodelled(f"`{norm(c)[:60]}`")
+
+
+# ---------------------------------------------------------------------------
+# the hold-back anchor as a table: its result on every argument made of line-break bytes and one other byte
+
+
+class AnchorTable:
+    """results of a hold-back anchor helper for every argument over `letters` (CR, LF, the bytes the helper names, one filler that
+    stands for every other byte) up to a length that covers every order and adjacency of the last line-break bytes"""
+
+    def __init__(self, fi: FuncInfo, letters: list[int], filler: int, results: dict[bytes, int]):
+        self.fi, self.letters, self.filler, self.results = fi, letters, filler, results
+        self.lower = min(results.values())
+
+    def end_when_no_break(self, breaks: t.Iterable[int]) -> bool:
+        """an argument without a line-break byte gives its length (nothing is held back)"""
+        br = set(breaks)
+        return all(r == len(s) for s, r in self.results.items() if not (set(s) & br))
+
+
+def line_break_words(lang: Lang) -> set[bytes]:
+    """the line breaks a word of the delimiter language can begin with (leading run of the bytes the words start with)"""
+    br = lang.first_bytes()
+    out = set()
+    for w in lang.words:
+        i = 0
+        while i < len(w) and w[i] in br:
+            i += 1
+        out.add(w[:i])
+    return out
+
+
+def delimiter_start(s: bytes, lbw: set[bytes], breaks: set[int]) -> int:
+    """where a delimiter that is not complete yet can begin at the end of s: the start of the longest suffix made of a line break
+    of the delimiter's line-break class followed by bytes that are not line breaks, or of a proper beginning of such a line break
+    at the very end; len(s) when s has no such suffix"""
+    for i in range(len(s)):
+        u = s[i:]
+        j = 0
+        while j < len(u) and u[j] in breaks:
+            j += 1
+        if j == 0 or any(b in breaks for b in u[j:]):
+            continue
+        h = u[:j]
+        if h in lbw or (j == len(u) and any(w.startswith(h) for w in lbw)):
+            return i
+    return len(s)
+
+
+def anchor_table(fi: FuncInfo) -> AnchorTable | None:
+    cached = getattr(fi, "_c01_anchor_table", "?")
+    if cached == "?":
+        cached = _anchor_table(fi)
+        fi._c01_anchor_table = cached  # type: ignore[attr-defined]
+    return cached
+
+
+def _anchor_table(fi: FuncInfo) -> AnchorTable | None:
+    """None = not a hold-back anchor the table can decide: more than one parameter, a construct outside the evaluated subset, a
+    numeric threshold the table's lengths do not cover, a result that is not a position in the argument (-1 .. len) or that does not
+    depend on the argument's content"""
+    import itertools
+
+    a = fi.node.args  # type: ignore[attr-defined]
+    decs = {d.rsplit(".", 1)[-1] for d in fi.decorators}
+    pos = [x.arg for x in a.posonlyargs + a.args]
+    if fi.cls is not None and "staticmethod" not in decs and pos:
+        pos = pos[1:]
+    if len(pos) != 1 or a.vararg or a.kwarg or a.kwonlyargs or isinstance(fi.node, ast.AsyncFunctionDef):
+        return None
+    named: set[int] = set()
+    for x in ast.walk(fi.node):
+        if isinstance(x, ast.Constant):
+            if isinstance(x.value, bytes):
+                named |= set(x.value)
+            elif isinstance(x.value, int) and not isinstance(x.value, bool) and abs(x.value) > 2:
+                if x.value not in (0x0A, 0x0D):  # the code of a line-break byte; any other number may be a threshold the table's lengths do not reach
+                    return None
+    letters = sorted({0x0A, 0x0D} | named)
+    filler = next(b for b in (0x78, 0x79, 0x7A, 0x77, 0x76) if b not in letters)
+    letters.append(filler)
+    if len(letters) > 4:
+        return None
+    maxlen = 6 if len(letters) <= 3 else 5
+    me = MiniEval(fi.module.repo)
+    results: dict[bytes, int] = {}
+    try:
+        for n in range(maxlen + 1):
+            for tup in itertools.product(letters, repeat=n):
+                s = bytes(tup)
+                me.steps = 0
+                v = me.call(fi, [s])
+                if not isinstance(v, int) or isinstance(v, bool) or not -1 <= v <= len(s):
+                    return None
+                results[s] = v
+    except (_Unmodelled, _PyRaise):
+        return None
+    by_len: dict[int, set[int]] = {}
+    for s, v in results.items():
+        by_len.setdefault(len(s), set()).add(v)
+    if all(len(vs) == 1 for vs in by_len.values()):
+        return None  # a function of the length alone: not an anchor
+    return AnchorTable(fi, letters, filler, results)
+
+
+# ---------------------------------------------------------------------------
 # feeding and draining the decoder: which class can the last value returned by
 # next_event() have when the next chunk is fed / when the function returns?
 #
